@@ -555,6 +555,31 @@ theorem incoming_exactly_once_or_closed (subs : List (List ACqe)) (n : Nat) :
   unfold Inc.drop Inc.owed
   cases hop : s.op <;> simp [hcl']
 
+/-- terminal completion WITH a value: when the kernel ends a multishot accept with a final *successful*
+completion (descriptor, no `F_MORE` — it does so when the completion queue is full), that connection is
+yielded like any other (`Accept::set_result` stored it, `Incoming` takes the finished op), and the next
+poll submits a new accept -/
+theorem incoming_terminal_success (s : Inc) (id : Nat) (rest : List ACqe) (sc : List ACqe) (subs : List (List ACqe))
+    (h : s.op = .live (⟨.fd id, false⟩ :: rest)) (hs : s.subs = sc :: subs) :
+    s.next = (.conn id, { s with op := .none, yielded := s.yielded ++ [id] }) ∧
+      (s.next.2.next).2.nsub = s.nsub + 1 ∧ (s.next.2.next).2.subs = subs := by
+  have e : s.next = (.conn id, { s with op := .none, yielded := s.yielded ++ [id] }) := by
+    have := inc_nextF_live 2 s ⟨.fd id, false⟩ rest h
+    simpa [Inc.next, atokOf, fdOf, afterOp] using this
+  refine ⟨e, ?_, ?_⟩
+  · rw [e]
+    show (Inc.nextF 3 _).2.nsub = _
+    rw [inc_nextF_none 1 _ rfl]
+    unfold Inc.idleStep
+    simp only [hs]
+    cases sc <;> rfl
+  · rw [e]
+    show (Inc.nextF 3 _).2.subs = _
+    rw [inc_nextF_none 1 _ rfl]
+    unfold Inc.idleStep
+    simp only [hs]
+    cases sc <;> rfl
+
 /-- a connection is never handed out twice: distinct descriptors stay distinct across `yielded` and
 `closed` -/
 theorem incoming_no_duplicates (subs : List (List ACqe)) (n : Nat) (hd : (backlog subs).Nodup) :
@@ -568,6 +593,16 @@ theorem incoming_no_duplicates (subs : List (List ACqe)) (n : Nat) (hd : (backlo
 example : (Stream.take 4 (Stream.new .bytes
     [.op [⟨.ok 2, true, some [1, 2, 3]⟩, ⟨.err .busy, false, none⟩], .op [⟨.ok 1, true, some [9]⟩, ⟨.ok 0, false, none⟩]])).1
     = [.item [1, 2], .err .busy, .item [9], .end_] := by decide
+
+/-- `incoming_exactly_once_or_closed` on a script with terminal-success entries (completion queue of 4:
+every 4th connection ends its submission successfully) -/
+example :
+    let subs : List (List ACqe) :=
+      [[⟨.fd 0, true⟩, ⟨.fd 1, true⟩, ⟨.fd 2, true⟩, ⟨.fd 3, false⟩],
+       [⟨.fd 4, true⟩, ⟨.fd 5, true⟩, ⟨.fd 6, true⟩, ⟨.fd 7, false⟩], [⟨.fd 8, true⟩, ⟨.fd 9, true⟩]]
+    (Inc.take 9 (Inc.new subs)).1 = (List.range 9).map ATok.conn ∧
+      (Inc.take 9 (Inc.new subs)).2.nsub = 3 ∧
+      (Inc.take 9 (Inc.new subs)).2.drop.closed = [9] := by decide
 
 example : (Inc.take 3 (Inc.new [[⟨.fd 7, true⟩, ⟨.fd 8, true⟩, ⟨.fd 9, true⟩, ⟨.fd 10, true⟩]])).2.drop.closed = [10] := by
   decide
